@@ -147,8 +147,26 @@ func checkLess(w *World, r *Report, call *ssa.CallCommon, sorted *ssa.Parameter,
 		return
 	}
 	less := mc.Fn.(*ssa.Function)
+	var recv *ssa.Parameter // receiver of a method value used as comparator; denotes the bound node
+	if strings.HasPrefix(less.Synthetic, "bound method wrapper") && len(mc.Bindings) == 1 {
+		var target *ssa.Function
+		EachInstr(less, func(in ssa.Instruction) {
+			if c, ok := in.(*ssa.Call); ok && c.Call.StaticCallee() != nil {
+				target = c.Call.StaticCallee()
+			}
+		})
+		if target == nil || len(target.Params) != 3 || varRoot(mc.Bindings[0]) != sorted {
+			r.Fail(rule, pos, w.Name(f), "less argument", "a method value that is not bound to the node whose children are sorted")
+			return
+		}
+		less, recv = target, target.Params[0]
+	}
 	rets := allReturns(less)
-	if len(rets) != 1 || len(less.Params) != 2 {
+	np := 2
+	if recv != nil {
+		np = 3
+	}
+	if len(rets) != 1 || len(less.Params) != np {
 		r.Fail(rule, w.Pos(less.Pos()), w.Name(less), "comparator", "expected a single return of one comparison")
 		return
 	}
@@ -167,6 +185,9 @@ func checkLess(w *World, r *Report, call *ssa.CallCommon, sorted *ssa.Parameter,
 			return nil, false
 		}
 		p := fieldLoadOfVar(ia.X, "astNode", "children")
+		if p != nil && p == recv {
+			p = sorted
+		}
 		if p == nil || p != sorted {
 			return nil, false
 		}
@@ -179,7 +200,7 @@ func checkLess(w *World, r *Report, call *ssa.CallCommon, sorted *ssa.Parameter,
 	}
 	xi, okx := side(bo.X)
 	yi, oky := side(bo.Y)
-	i, j := ssa.Value(less.Params[0]), ssa.Value(less.Params[1])
+	i, j := ssa.Value(less.Params[np-2]), ssa.Value(less.Params[np-1])
 	good := okx && oky && ((bo.Op == token.LSS && xi == i && yi == j) || (bo.Op == token.GTR && xi == j && yi == i))
 	r.Check(good, rule, w.InstrPos(rets[0]), w.Name(less), "return "+describe(bo),
 		"strict less on cost of the sorted slice's own elements i and j", "the comparator is not children[i].cost < children[j].cost on the sorted slice (non-strict, reversed, or over other data)")
